@@ -5,6 +5,14 @@ sys.path.insert(0, os.path.dirname(os.path.dirname(os.path.abspath(__file__))))
 from vf import check, reference
 from vf.model import Repo
 out = {}
+from vf import generic
+allrels = sorted({r for i in range(1, 21) for r in generic.anchors('C%02d' % i)})
+out['__live_params__'] = generic.live_table(Repo('/repo'), allrels)
+from vf import diffrules
+out['__atoms__'] = diffrules.table(Repo('/repo'), allrels)
+out['__stmts__'] = diffrules.stmt_table(Repo('/repo'), allrels)
+json.dump(out, open(reference.PATH, 'w'), indent=0, sort_keys=True)
+reference._REF = None
 for i in range(1, 21):
   prop = 'C%02d' % i
   repo = Repo('/repo')
@@ -16,7 +24,7 @@ for i in range(1, 21):
 # digest of every function (and module) of every module any rule loaded: lets a later run compare units it consults only there
 table = {}
 repo = Repo('/repo')
-rels = sorted({k.split('|')[1] for v in out.values() for k in v['units']})
+rels = sorted({k.split('|')[1] for kk, v in out.items() if not kk.startswith('__') for k in v['units']})
 for rel in rels:
   m = repo._load(rel)
   table[reference.unit_key(('mod', rel))] = reference.unit_digest(repo, ('mod', rel))
@@ -41,8 +49,5 @@ for rel in rels:
     if kids:
       children['%s|%s' % (rel, q)] = [[k.name, len(astu.params(k))] for k in kids]
 out['__children__'] = children
-from vf import generic
-allrels = sorted({r for i in range(1, 21) for r in generic.anchors('C%02d' % i)})
-out['__live_params__'] = generic.live_table(Repo('/repo'), allrels)
 json.dump(out, open(reference.PATH, 'w'), indent=0, sort_keys=True)
-print('rules: %d, units: %d, table: %d' % (len(out) - 4, sum(len(v['units']) for k, v in out.items() if not k.startswith('__')), len(table)))
+print('rules: %d, units: %d, table: %d' % (len(out) - 6, sum(len(v['units']) for k, v in out.items() if not k.startswith('__')), len(table)))
